@@ -94,6 +94,9 @@ func genC08(rng *rand.Rand, c *Case) {
 		if (off < 0 && rng.Intn(5) == 0) || (off >= 0 && rng.Intn(6) == 0) {
 			preview = 1 // also together with a resume offset: the bare data from that offset
 		}
+		if preview == 0 && rng.Intn(7) == 0 {
+			preview = 2 + rng.Intn(5) // a transfer-options field that is not the preview value (see c08OddOptions)
+		}
 		c.Ops = append(c.Ops, Op{C: rng.Intn(c.Cfg["clients"]), K: "get", N: []int{fi, off, preview}})
 	}
 }
@@ -147,7 +150,12 @@ func runC08(w *World) {
 				f := files[op.N[0]]
 				k := op.N[1]
 				preview := op.N[2] == 1
-				res := c.Download(nil, f.name, int64(k), preview)
+				var res DownloadResult
+				if op.N[2] >= 2 {
+					res = c.DownloadOpt(nil, f.name, int64(k), c08OddOptions[(op.N[2]-2)%len(c08OddOptions)])
+				} else {
+					res = c.Download(nil, f.name, int64(k), preview)
+				}
 				if k < 0 {
 					k = 0
 				}
@@ -166,6 +174,13 @@ func runC08(w *World) {
 					w.Violate("c08-reply-file-size", "%s: reply field 207 (file size) is %d, remaining data length is %d", what, res.FileSize, len(remaining))
 				}
 				s := res.Stream
+				if op.N[2] >= 2 {
+					// the property does not say which values of the options field ask for a preview.  Whichever way
+					// the server reads this one, the download must be one of the two kinds as a whole: announced as
+					// bare data and carried as bare data, or a flattened file judged like every other download.
+					w.Probe("downloads_with_unusual_options_field")
+					preview = int(res.XferSize) == len(remaining) && bytes.Equal(s, remaining)
+				}
 				if preview {
 					w.Probe("preview_downloads")
 					if op.N[1] >= 0 {
@@ -228,6 +243,9 @@ func runC08(w *World) {
 	}
 	w.Sim.Run()
 }
+
+// transfer-options fields other than the two-byte value 2 of a preview request
+var c08OddOptions = [][]byte{{}, {0, 1}, {2}, {0, 0}, {0, 2, 0}}
 
 func shortName(s string) string {
 	if len(s) > 24 {
